@@ -30,7 +30,7 @@ def plain_cases(draw):
 def cases(draw):
     if draw(st.integers(0, 9)) < 3:
         return draw(plain_cases())
-    w = draw(GW.worlds(ninst=4, split_paths=draw(st.booleans())))
+    w = draw(GW.worlds(ninst=4, split_paths=draw(st.booleans()), foreign_ids=draw(st.booleans())))
     # force some documents behind the handler so that the down -> up transition exists
     handler_docs = [u for u, v in w["via"].items() if v == "handler"]
     w["down"] = draw(st.lists(st.sampled_from(handler_docs), unique=True)) if handler_docs else []
@@ -189,7 +189,7 @@ class C07(Prop):
             return self.check_plain(case)
         res = Result()
         res.evals = 0
-        ok, why = GW.wellformed(case)
+        ok, why = GW.wellformed(case, allow_foreign_ids=True)
         if not ok:
             res.excluded = why
             return res
